@@ -19,8 +19,8 @@ fn big(f: &CorpusFont) -> bool {
 }
 
 pub fn sec_random(ctx: &mut Ctx, fonts: &[CorpusFont], items: &mut Items) {
-    let per_small = ctx.tier.pick(260usize, 2600usize);
-    let per_big = ctx.tier.pick(40usize, 400usize);
+    let per_small = ctx.budget(1200, 9600);
+    let per_big = ctx.budget(100, 800);
     for (fi, f) in fonts.iter().enumerate() {
         let n = if big(f) { per_big } else { per_small };
         let mut buf: Option<Vec<u8>> = None;
@@ -48,8 +48,8 @@ pub fn sec_random(ctx: &mut Ctx, fonts: &[CorpusFont], items: &mut Items) {
 
 pub fn sec_sweeps(ctx: &mut Ctx, fonts: &[CorpusFont], items: &mut Items) {
     // deterministic boundary sweep, sampled 1/keep by enumeration index
-    let keep = ctx.tier.pick(23usize, 3usize);
-    let window = ctx.tier.pick(48usize, 96usize);
+    let keep = (2300 / ctx.budget(420, 2300)).max(1);
+    let window = ctx.budget(48, 96);
     for (fi, f) in fonts.iter().enumerate() {
         if big(f) && !ctx.tier.is_thorough() {
             // the large fonts get the extreme-value treatment instead (cost)
@@ -119,7 +119,7 @@ fn apply_desc(buf: &mut [u8], d: &str, p: &mut Patcher) -> bool {
 }
 
 pub fn sec_truncate(ctx: &mut Ctx, fonts: &[CorpusFont], items: &mut Items) {
-    let dense = ctx.tier.pick(0usize, 64usize);
+    let dense = ctx.budget(0, 64);
     for (fi, f) in fonts.iter().enumerate() {
         if big(f) {
             continue;
@@ -295,8 +295,8 @@ pub fn extreme_groups(cfg_seed: u64, rng: &mut Rng, has_colr: bool) -> Vec<Group
 }
 
 pub fn sec_extreme(ctx: &mut Ctx, fonts: &[CorpusFont], items: &mut Items) {
-    let per_small = ctx.tier.pick(160usize, 1600usize);
-    let per_big = ctx.tier.pick(60usize, 600usize);
+    let per_small = ctx.budget(1400, 11000);
+    let per_big = ctx.budget(350, 2800);
     for (fi, f) in fonts.iter().enumerate() {
         let has_outlines = drive::has_table(&f.data, b"glyf") || drive::has_table(&f.data, b"CFF ") || drive::has_table(&f.data, b"CFF2");
         if !has_outlines {
